@@ -165,7 +165,7 @@ func runNOOPEARLY(c *Ctx) {
 		isNoop := false
 		for _, f := range ir.FactsAt(r.Block()) {
 			if call, ok := f.Cond.(*ssa.Call); ok && f.Truth {
-				if sc := call.Call.StaticCallee(); sc != nil && sc.String() == "reflect.DeepEqual" {
+				if sc := ir.Callee(call.Call); sc != nil && sc.String() == "reflect.DeepEqual" {
 					isNoop = true
 				}
 			}
@@ -526,7 +526,7 @@ func notEmptyFact(b *ssa.BasicBlock, x ssa.Value) bool {
 		if !ok || truth {
 			continue
 		}
-		sc := call.Call.StaticCallee()
+		sc := ir.Callee(call.Call)
 		if sc == nil || sc.Name() != "isEmpty" || len(call.Call.Args) == 0 {
 			continue
 		}
@@ -563,6 +563,25 @@ func runNOEMPTY(c *Ctx) {
 	check := func(fn *ssa.Function, st *ssa.Store, where string) {
 		v := ir.Strip(st.Val)
 		if !isNodePtr(v.Type()) {
+			// a link computed by a helper (`linkOrNil(node)`): every return of the helper that yields a node
+			// is guarded inside the helper
+			if call, ok := v.(*ssa.Call); ok {
+				if sc := ir.Callee(call.Call); sc != nil && isOwn(c.P, sc) && sc.Blocks != nil && sc.Signature.Results().Len() == 1 {
+					for _, r := range ir.Returns(sc) {
+						rv := ir.Strip(r.Results[0])
+						if !isNodePtr(rv.Type()) {
+							continue
+						}
+						what := fmt.Sprintf("%s = %s(…) in %s: returned node %s", where, sc.Name(), ir.FuncName(fn), ir.Sym(rv))
+						if notEmptyFact(r.Block(), rv) {
+							c.OK(P.InstrPos(st), what, "the helper returns the node only under !isEmpty", false)
+						} else {
+							c.Violation(fn, P.InstrPos(st), "node linked without an emptiness test ("+where+" via "+sc.Name()+")",
+								"an entry-less node can become reachable (and later persisted): the shape invariant 'no entry-less node other than pass-through nodes' and the uniqueness of the persisted form both break")
+						}
+					}
+				}
+			}
 			return
 		}
 		pos := P.InstrPos(st)
@@ -574,7 +593,7 @@ func runNOEMPTY(c *Ctx) {
 		// ToShared copy of an already linked child
 		if ex, ok := v.(*ssa.Extract); ok && ex.Index == 0 {
 			if call, ok := ex.Tuple.(*ssa.Call); ok {
-				if sc := call.Call.StaticCallee(); sc != nil && sc.Name() == "ToShared" {
+				if sc := ir.Callee(call.Call); sc != nil && sc.Name() == "ToShared" {
 					c.OK(pos, what, "ToShared copy of an existing link", false)
 					return
 				}
@@ -792,7 +811,7 @@ func helperResult(v ssa.Value) (inner ssa.Value, env map[*ssa.Parameter]ssa.Valu
 	if call == nil {
 		return nil, nil, false
 	}
-	f := call.Call.StaticCallee()
+	f := ir.Callee(call.Call)
 	if f == nil || f.Blocks == nil {
 		return nil, nil, false
 	}
